@@ -170,7 +170,8 @@ def warmup():
                     run({'kind': kind, 'left': isl, 'L': [1, 2, 4], 'R': [2, 3, 4], 'inv': inv, 'cs': 2, 'rd': rd, 'kt': kt})
                 except Exception:
                     pass
-            for kt in KEY_TYPES_QUICK + ['int16']:
+            import os
+            for kt in (KEY_TYPES if os.environ.get('VERIF_TIER') == 'thorough' else KEY_TYPES_QUICK + ['int16']):
                 try:
                     run({'kind': kind, 'left': isl, 'L': [1, 2, 4], 'R': [2, 3, 4], 'inv': -1, 'cs': 2, 'rd': KEY_RD[kt], 'kt': kt,
                          'km': ['win', 0]})
@@ -301,7 +302,7 @@ def gen(tier, rng):
     # side over 3 ranks x every chunk size x every variant, seen through the monotone selections of every key dtype's table
     # of critical values (key_table), rotating so that every (dtype, selection) meets every order type class
     from harness import hot
-    ktypes = KEY_TYPES if (tier != 'quick' or hot.changed()) else KEY_TYPES_QUICK
+    ktypes = KEY_TYPES if tier != 'quick' else KEY_TYPES_QUICK     # warmup() compiles exactly these signatures
     stride = 3 if tier != 'quick' else (4 if hot.changed() else 9)
     small = list(_nondecr(3, 3)) + ([x for x in _nondecr(4, 3) if len(x) == 4] if tier != 'quick' else [])
     kc = 0
